@@ -40,7 +40,7 @@ inductive EState where
 abbrev Pairs := List (List Char × Option (List Char))
 
 /-- `pairs.last_mut().unwrap().1 = Some(v)` (the list is non-empty whenever this is reached:
-    lemma `elStep_pairs_nonempty`). -/
+    `elStep_pairs_nonempty` in Lemmas/ElStepInv.lean). -/
 def setLastValue (pairs : Pairs) (v : List Char) : Pairs :=
   match pairs.getLast? with
   | some (n, _) => pairs.dropLast ++ [(n, some v)]
